@@ -43,6 +43,11 @@ type Request struct {
 	w          requestBodyWriter
 	body       *bytebufferpool.ByteBuffer
 
+	// bodyStreamLeftUnread records that the stream of a request body read by the
+	// server (Server.StreamRequestBody) was closed while part of the framed body
+	// was still on the connection.
+	bodyStreamLeftUnread bool
+
 	multipartForm         *multipart.Form
 	multipartFormBoundary string
 
@@ -1315,6 +1320,7 @@ func (req *Request) Reset() {
 	req.timeout = 0
 	req.UseHostHeader = false
 	req.DisableRedirectPathNormalizing = false
+	req.bodyStreamLeftUnread = false
 }
 
 func (req *Request) resetSkipHeader() {
@@ -2420,10 +2426,22 @@ func (req *Request) closeBodyStream() error {
 		err = bsc.Close()
 	}
 	if rs, ok := req.bodyStream.(*requestStream); ok {
+		if rs.header != nil && rs.unreadOnWire() {
+			req.bodyStreamLeftUnread = true
+		}
 		releaseRequestStream(rs)
 	}
 	req.bodyStream = nil
 	return err
+}
+
+// bodyStreamUnread reports whether bytes of the request body framed on the
+// connection have not been read off it (only possible with streamed bodies).
+func (req *Request) bodyStreamUnread() bool {
+	if rs, ok := req.bodyStream.(*requestStream); ok {
+		return rs.unreadOnWire()
+	}
+	return req.bodyStreamLeftUnread
 }
 
 func (resp *Response) closeBodyStream(wErr error) error {
